@@ -298,7 +298,8 @@ def residual_class(code, fn, tree, v):
         if reason in loop_reasons and in_loop:
             return "finally_local"
         # (PopCaptured: on the h+1 path the scope-end Pop / CloseUpvalue sequence is applied one slot off)
-        if reason in ("StackUnderflow", "HandlerAboveStack", "ReturnWithHandlers", "PopCaptured") and pc >= first:
+        # (in_loop: a continue / fall-through at h+1 carries the shift to the whole enclosing loop)
+        if reason in ("StackUnderflow", "HandlerAboveStack", "ReturnWithHandlers", "PopCaptured") and (pc >= first or in_loop):
             return "finally_local"
     # umbrella rule for interactions of the open classes above (documented in notes/C04.md): the function has a
     # finally clause or a return inside try, and the verdict is about heights / handlers / the pending return -
